@@ -135,7 +135,7 @@ def uniquify_pollers(events):
             if e["ev"] == "ListStart":
                 inc[key] = inc.get(key, 0) + 1
             e = dict(e)
-            e["p"] = "%s#%d" % (e["p"], inc.get(key, 0))
+            e["p"] = "%s@%s#%d" % (e["p"], e.get("pid"), inc.get(key, 0))
         out.append(e)
     return out
 
@@ -207,6 +207,22 @@ def relay_mutations():
             ("drop-client-reply", drop_reply), ("id-in-two-list-replies", double_list)]
 
 
+def proxy_env_phase(ctx, nquick, nthorough):
+    """TLC-enumerated schedules of the proxy's environment (clients, agent calls, foreign poller,
+    disconnects), performed step by step on the real proxy with the harness as agent."""
+    import random
+    gen = tlc_generate(ctx, "ProxyEnvGen", "ProxyEnvGen.cfg", "proxyenv_schedules.json")
+    alls = json.load(open(gen))["schedules"]
+    ctx.extra["environment_schedules_enumerated_by_tlc"] = len(alls)
+    rnd = random.Random(ctx.seed + 17)
+    n = nthorough if ctx.tier == "thorough" else nquick
+    sample = alls if n >= len(alls) else rnd.sample(alls, n)
+    cpath = os.path.join(ctx.scratch, "proxyenv_cases.json")
+    json.dump({"schedules": sample}, open(cpath, "w"))
+    events, _ = drive(ctx, "proxyenv", cases=cpath, timeout=3000)
+    return relay_validate(ctx, events)
+
+
 def c01(ctx):
     ctx.rule = ("cases = bursts of concurrent clients (random sizes/latencies, seeded) through the real proxy+agent binaries; "
                 "distinct = distinct (scenario kind, number of concurrent clients); every recorded event is replayed by TLC through RelayTrace")
@@ -226,6 +242,7 @@ def c01(ctx):
         selftest(ctx, "RelayTrace", "RelayTrace.cfg", split_segments(events)[0], relay_mutations())
     events, _ = drive(ctx, "relay", mode="race")
     relay_validate(ctx, events)
+    proxy_env_phase(ctx, 120, 100000)
 
 
 def tlc_generate(ctx, module, cfg, outname):
@@ -321,6 +338,8 @@ def c04(ctx):
     # (ii) stand-alone proxy: each ID goes to exactly one list reply, across concurrent pollers
     events, _ = drive(ctx, "relay", mode="pollers")
     relay_validate(ctx, events)
+    # (iii) TLC-enumerated environment schedules incl. a foreign poller and client disconnects
+    proxy_env_phase(ctx, 60, 100000)
 
 
 def c07(ctx):
